@@ -112,6 +112,22 @@ def _one_impl(sc, alg, kind, payload: bytes, with_ref: bool):
             tok = mod.serialize_json(arg, payload.decode("utf-8") if raw else payload, skey, algorithms=[alg])
     except Exception as e:  # noqa
         return [] if soft else [("sign-raised:" + type(e).__name__, str(e)[:100])]
+    if with_ref and not soft:
+        # C07 (a): an independent implementation given only the exported public JWK verifies the produced token
+        # (judged on its own, whatever joserfc's own verification below says)
+        try:
+            pj = pub.as_dict(private=False) if K.get(kind)["kty"] != "oct" else pub.as_dict()
+            if ser == "compact":
+                if raw and len(tok.split(".")) == 3 and tok.split(".")[1] == "":
+                    hdr, body = R.jws_verify_compact(tok, pj, payload)
+                else:
+                    hdr, body = R.jws_verify_compact(tok, pj)
+            else:
+                hdrs, body = R.jws_verify_json(tok, [pj])
+            if body != payload:
+                fails.append(("ref-payload-differs", repr(body)[:60]))
+        except Exception as e:  # noqa
+            fails.append(("ref-verify-failed:" + type(e).__name__, str(e)[:100]))
     # detach / restore
     tok_v = tok
     if sc["detach"]:
@@ -180,21 +196,6 @@ def _one_impl(sc, alg, kind, payload: bytes, with_ref: bool):
         fails.append(("protected-differs", json.dumps(got_prot)[:100]))
     if (got_unprot or None) != (exp_unprot or None):
         fails.append(("unprotected-differs", json.dumps(got_unprot)[:100]))
-    if with_ref:
-        # C07 (a): an independent implementation given only the exported public JWK verifies the token
-        try:
-            pj = pub.as_dict(private=False) if K.get(kind)["kty"] != "oct" else pub.as_dict()
-            if ser == "compact":
-                if raw and tok.split(".")[1] == "":
-                    hdr, body = R.jws_verify_compact(tok, pj, payload)
-                else:
-                    hdr, body = R.jws_verify_compact(tok, pj)
-            else:
-                hdrs, body = R.jws_verify_json(tok, [pj])
-            if body != payload:
-                fails.append(("ref-payload-differs", repr(body)[:60]))
-        except Exception as e:  # noqa
-            fails.append(("ref-verify-failed:" + type(e).__name__, str(e)[:100]))
     return fails
 
 
